@@ -391,6 +391,18 @@ class NameConverter(ast.NodeTransformer):
         self.map_mangled = map_mangled
         self.code_mangled = code_mangled
         self.count = count()
+        self.in_iterable = False
+
+    def visit_comprehension(self, node):
+        # An assignment expression cannot be used in the iterable of a
+        # comprehension: calls rewritten there bind their arguments as the
+        # parameters of a lambda instead (see visit_Call)
+        outer, self.in_iterable = self.in_iterable, True
+        node.iter = self.visit(node.iter)
+        self.in_iterable = outer
+        node.target = self.visit(node.target)
+        node.ifs = [self.visit(cond) for cond in node.ifs]
+        return node
 
     def visit_Name(self, node):
         if node.id in self.recurse_syms:
@@ -443,6 +455,7 @@ class NameConverter(ast.NodeTransformer):
             return self.generic_visit(node)
 
         tmp = f"__TMP{next(self.count)}_"
+        by_lambda = self.in_iterable
 
         def _make_lookup_call(key, arg):
             name = (
@@ -450,10 +463,13 @@ class NameConverter(ast.NodeTransformer):
                 if self.analysis.lookup_for(key) is subtler_type
                 else "__TYPE"
             )
-            value = ast.NamedExpr(
-                target=ast.Name(id=f"{tmp}{key}", ctx=ast.Store()),
-                value=self.visit(arg),
-            )
+            if by_lambda:
+                value = ast.Name(id=f"{tmp}{key}", ctx=ast.Load())
+            else:
+                value = ast.NamedExpr(
+                    target=ast.Name(id=f"{tmp}{key}", ctx=ast.Store()),
+                    value=self.visit(arg),
+                )
             func = ast.Name(id=name, ctx=ast.Load())
             return ast.Call(
                 func=func,
@@ -508,6 +524,35 @@ class NameConverter(ast.NodeTransformer):
                 for kw in keywords
             ],
         )
+        if by_lambda:
+            # (lambda t0, *, tk: MAP[...](t0, k=tk))(arg0, tk=value): each
+            # argument is still evaluated once, in the order written
+            new_node = ast.Call(
+                func=ast.Lambda(
+                    args=ast.arguments(
+                        posonlyargs=[],
+                        args=[
+                            ast.arg(arg=f"{tmp}{i}")
+                            for i, arg in enumerate(args)
+                        ],
+                        vararg=None,
+                        kwonlyargs=[
+                            ast.arg(arg=f"{tmp}{kw.arg}") for kw in keywords
+                        ],
+                        kw_defaults=[None for kw in keywords],
+                        kwarg=None,
+                        defaults=[],
+                    ),
+                    body=new_node,
+                ),
+                args=[self.visit(arg) for arg in args],
+                keywords=[
+                    ast.keyword(
+                        arg=f"{tmp}{kw.arg}", value=self.visit(kw.value)
+                    )
+                    for kw in keywords
+                ],
+            )
         return ast.copy_location(old_node=node, new_node=new_node)
 
 
